@@ -36,6 +36,14 @@ def handleFilters (args : List String) : Option String :=
       | some (d', out) => "ok " ++ toHex d' ++ " " ++ toHex out
       | none => "panic"
     | _, _, _, _, _ => "bad-args"
+  | "unfilter_image" :: rest => some <|
+    match parseImg rest with
+    | none => "bad-args"
+    | some img =>
+      match unfilterImage img with
+      | some (some d) => "ok " ++ toHex d
+      | some none => "err"
+      | none => "panic"
   | "filter_image" :: how :: rest => some <|
     match parseImg rest with
     | none => "bad-args"
